@@ -59,7 +59,7 @@ impl Property for StoreProp {
     fn rule(&self) -> String {
         match self.id {
             "C13" => "histories of remote inserts with out-of-order timestamps over 2 documents and 3 authors, prefix deletions, document removal and re-creation, reopen; after every step heads and has_news (random peer head reports) are compared with the model and with the specification (max timestamp of entries held); head sets with shared timestamps encoded under limits 0..120 and without limit, decode of random bytes; non-trivial = at least 3 entries inserted or a codec operation on >= 2 heads",
-            "C16" => "stores with 4 documents whose ids are byte-order neighbours of the key pool (0xFF-edged ids preferred), histories of writes, deletions, peers, policies, open/close, removal (refused while open) and re-creation; all observers (entries both index paths, heads, peers, policy, namespaces, content hashes) of all documents after every removal; non-trivial = a removal succeeded on a document that held entries",
+            "C16" => "stores with 4 documents with real key ids (0xFF-edged ids preferred) and 7 documents whose ids are hand-picked neighbours in byte order (P07FF, P0800, P0880, P08FF, P0900, FF..FE, FF..FF; read-only, populated through hook H6 with 6 neighbouring author ids), histories of writes, deletions, peers, policies, open/close, removal (refused while open) and re-creation; all observers (entries both index paths, heads, peers, policy, namespaces, content hashes) of all documents after every removal; non-trivial = a removal succeeded on a document that held entries",
             "C17" => "sequences of 1-30 peer registrations with strictly increasing times over 1-9 distinct peers and 3 documents (one unknown), interleaved reads, reopen; specification = five most recent distinct peers, most recent first; non-trivial = more than 5 distinct peers or a re-registration",
             "C15" => "random policies (both kinds, 0-3 exact/prefix filters incl. empty and non-UTF-8 bytes) set/read on existing and unknown documents with reopen; policy x key match decisions; filter text round trips and parsing of malformed filter strings; non-trivial = policy with at least one filter",
             "C18" => "file stores built by histories of remote inserts (2 documents, 3 authors, deletion markers, equal timestamps) in which the head table and/or the by-key index are deleted with plain redb and the file is opened again 1-3 times; heads (timestamps and keys), key-ordered and latest-per-key queries, entries, peers, policies, namespaces and content hashes compared with the model (migration functions) and with the specifications (max timestamp; filter/sort/window); non-trivial = a derived table was dropped from a store with at least 2 entries",
@@ -135,20 +135,33 @@ impl Property for StoreProp {
                 ops.push(Op::S(SOp::Observe { n: 1 }));
             }
             "C16" => {
-                for n in 0..docs {
+                // documents: the real ones and the hand-picked neighbours in byte order
+                let raw = RAW_NS.len();
+                let pick_doc = |rng: &mut Rng| if rng.chance(1, 2) { rng.below(docs) } else { RAW_BASE + rng.below(raw) };
+                for n in (0..docs).chain((0..raw).map(|d| RAW_BASE + d)) {
                     if rng.chance(5, 6) {
                         ops.push(Op::S(SOp::Import { n, write: rng.chance(3, 4) }));
                     }
                 }
                 for _ in 0..rng.range(4, 16 * scale) {
                     match rng.below(20) {
-                        0..=9 => ops.push(Op::S(gen_put(rng, docs, 3))),
-                        10..=11 => ops.push(Op::S(SOp::Peer { n: rng.below(docs), t: 100 + ops.len() as u64, p: rng.below(4) as u8 })),
-                        12 => ops.push(Op::S(SOp::SetPolicy { n: rng.below(docs), pol: gen_pol(rng) })),
-                        13 => ops.push(Op::S(SOp::OpenRep { n: rng.below(docs) })),
-                        14 => ops.push(Op::S(SOp::CloseRep { n: rng.below(docs) })),
+                        0..=9 => {
+                            let n = pick_doc(rng);
+                            let mut p = gen_put(rng, docs, 3);
+                            if let SOp::Put { n: pn, a, .. } = &mut p {
+                                *pn = n;
+                                if n >= RAW_BASE {
+                                    *a = rng.below(RAW_AUTHORS.len());
+                                }
+                            }
+                            ops.push(Op::S(p))
+                        }
+                        10..=11 => ops.push(Op::S(SOp::Peer { n: pick_doc(rng), t: 100 + ops.len() as u64, p: rng.below(4) as u8 })),
+                        12 => ops.push(Op::S(SOp::SetPolicy { n: pick_doc(rng), pol: gen_pol(rng) })),
+                        13 => ops.push(Op::S(SOp::OpenRep { n: pick_doc(rng) })),
+                        14 => ops.push(Op::S(SOp::CloseRep { n: pick_doc(rng) })),
                         15..=17 => {
-                            let n = rng.below(docs);
+                            let n = pick_doc(rng);
                             ops.push(Op::S(SOp::Remove { n }));
                             ops.push(Op::S(SOp::ObserveAll));
                             if rng.chance(1, 2) {
@@ -206,10 +219,26 @@ impl Property for StoreProp {
                             ops.push(Op::PolicyMatch { pol, key });
                         }
                         9..=10 => {
-                            let bytes = match rng.below(4) {
+                            let bytes = match rng.below(8) {
                                 0 => vec![0xC3, 0x28, 0xFF],
                                 1 => b"a:b:c".to_vec(),
                                 2 => "h\u{e9}llo".as_bytes().to_vec(),
+                                // white space at the edges and inside: part of the filter bytes
+                                3 => {
+                                    let ws = *rng.pick(&[" ", "\t", "\n", "\r\n", "\u{a0}", "\u{2003}", "  "]);
+                                    let core = *rng.pick(&["", "a", "notes/my drafts", ":", "a:b"]);
+                                    match rng.below(3) {
+                                        0 => format!("{core}{ws}"),
+                                        1 => format!("{ws}{core}"),
+                                        _ => format!("{ws}{core}{ws}"),
+                                    }
+                                    .into_bytes()
+                                }
+                                4 => {
+                                    // printable ASCII incl. punctuation the textual form uses
+                                    let n = rng.range(0, 6);
+                                    (0..n).map(|_| *rng.pick(b" :=,;%\\\"'#/a0Z~")).collect()
+                                }
                                 _ => gen_key(rng),
                             };
                             ops.push(Op::FilterText { exact: rng.chance(1, 2), bytes });
